@@ -509,6 +509,12 @@ impl Store {
         crate::verif::sync_point("insert.before_commit", Some(frame.id));
         batch.commit()?;
         self.keyspace.persist(fjall::PersistMode::SyncAll)?;
+
+        // A registration frame makes its context usable however it got here (append or
+        // import), exactly as reopening the store would.
+        if frame.topic == "xs.context" && frame.context_id == ZERO_CONTEXT {
+            self.contexts.write().unwrap().insert(frame.id);
+        }
         #[cfg(feature = "verif")]
         crate::verif::sync_point("insert.after_commit", Some(frame.id));
         Ok(())
